@@ -1,7 +1,8 @@
 """C04 — Colang 2 event matching follows the documented partial-match rules.
 
 Tie: translator (constants) + differential on `_compute_arguments_dict_matching_score`,
-`_compute_event_comparison_score`, and end-to-end `match Ev(x=<pattern>)` through run_to_completion.
+`_compute_event_comparison_score`, end-to-end `match Ev(x=<pattern>)` through run_to_completion, and multi-event
+histories whose statement parameters are expressions over changing state (harness/impl/c04_hist.py, Lean `runHist`).
 Oracle: `doc_matches`, a transcription of the property statement / event-generation-and-matching.rst,
 written independently of the Lean model.
 """
@@ -12,6 +13,7 @@ import random
 import re
 import types
 
+from ..impl import c04_hist as hist
 from ..impl import valjson as vj
 from ..translate import c04 as tr
 
@@ -20,8 +22,13 @@ THEOREM_MODULE = "NemoVerif.Theorems.C04"
 RULE = ("pattern: random nested value (scalars, regex, comparison, list, set, dict; depth<=4 quick / 6 thorough); payload: "
         "40% instance of the pattern, 40% instance mutated by add/drop/reorder/alter at random positions, 20% independent; "
         "plus event-level pairs (plain/internal/action events, action uids, flow references, priorities) and end-to-end "
-        "`match Ev(x=pattern)` programs through run_to_completion. non-trivial = pattern contains a container or regex/comparison "
-        "AND payload is not byte-identical to the pattern's own instance; distinct = distinct (pattern, payload) JSON.")
+        "`match Ev(x=pattern)` programs through run_to_completion; plus multi-event history programs (e2e_hist): the statement's parameters "
+        "are expressions over state that changes while the head waits (global via ContextUpdate / direct context write / another flow, "
+        "attribute of a referenced flow or action, variable assigned by a sibling head, $action.Finished(param=expr)), 2-7 steps of "
+        "events (instance of the current / of an earlier pattern, mutated, independent), state changes and noise; loop, two instances, "
+        "or-group, when block. non-trivial = pattern contains a container or regex/comparison "
+        "AND payload is not byte-identical to the pattern's own instance (histories: at least one event with the statement's name); "
+        "distinct = distinct (pattern, payload) JSON.")
 TRUSTED_BASE = [
     "translator harness/translate/c04.py (argument_filter, the four 0.9 literals, InternalEvents.ALL extracted by AST path)",
     "correspondence harness harness/props/C04.py + Lean driver Drive/C04.lean (JSON codecs on both sides)",
@@ -29,7 +36,9 @@ TRUSTED_BASE = [
 ]
 ASSUMPTIONS = [
     "dict keys are strings; floats are finite and exactly dyadic; no NaN/inf; 0.9**k does not underflow (k < 1000)",
-    "modelled by hand: _compute_arguments_dict_matching_score, _compute_event_comparison_score, ComparisonExpression.compare",
+    "modelled by hand: _compute_arguments_dict_matching_score, _compute_event_comparison_score, ComparisonExpression.compare, "
+    "_compute_event_matching_score + the per-head part of the run_to_completion loop (candidate lookup, advance / abort); "
+    "expression evaluation is a parameter of the history theorems (instantiated with the generated template language)",
 ]
 
 SCALARS = [None, True, False, 0, 1, 2, -1, 3, 0.5, 1.0, 2.5, "a", "b", "ab", "ba", "", "1", "True", "aXb"]
@@ -240,6 +249,10 @@ def gen_cases(rng, tier):
     n_ref = 120 if tier == "quick" else 3000
     for i in range(n_ref):
         cases.append(g_ref_case(rng))
+    # multi-event histories: the statement's parameters are expressions over state that changes while the head waits
+    n_hist = 1200 if tier == "quick" else 12000
+    for i in range(n_hist):
+        cases.append(hist.g_case(rng))
     return cases
 
 
@@ -376,6 +389,8 @@ def run_impl(case):
         return run_e2e(case)
     if case["kind"] == "e2e_ref":
         return run_e2e_ref(case)
+    if case["kind"] == "e2e_hist":
+        return hist.run(case, sm, Recorder)
     raise ValueError(case["kind"])
 
 
@@ -625,8 +640,12 @@ def run_e2e(case):
 # ----------------------------------------------------------------------------- model
 
 def model_requests(case, obs):
-    if case["kind"] == "e2e_ref":
+    if case["kind"] in ("e2e_ref", "e2e_hist"):
         reqs = []
+        if case["kind"] == "e2e_hist":
+            h = hist.model_request(case, obs)
+            if h is not None:
+                reqs.append(h)
         for c in obs.get("calls", []):
             if c["fn"] == "gefe":
                 reqs.append({"m": "C04.stmt", "stmt": c["stmt"]})
@@ -673,6 +692,15 @@ def compare_calls(obs, mouts):
 
 def compare(case, obs, mouts):
     if case["kind"] == "e2e_ref":
+        return compare_calls(obs, mouts)
+    if case["kind"] == "e2e_hist":
+        if "skip" in obs:
+            return None
+        if hist.model_request(case, obs) is not None:
+            d = hist.compare_hist(case, obs, mouts[0])
+            if d:
+                return d
+            mouts = mouts[1:]
         return compare_calls(obs, mouts)
     m = mouts[0]
     if case["kind"] in ("fn", "e2e"):
@@ -823,6 +851,8 @@ def oracle_ref(case, obs):
 def oracle(case, obs):
     if case["kind"] == "e2e_ref":
         return oracle_ref(case, obs)
+    if case["kind"] == "e2e_hist":
+        return hist.oracle(case, obs)
     if case["kind"] in ("fn", "e2e"):
         a, r = vj.dec(obs["arg_seen"]), vj.dec(obs["ref_seen"])
         if case["kind"] == "e2e":
@@ -874,7 +904,7 @@ def oracle(case, obs):
 
 
 def signature(case, obs, msg):
-    if case["kind"] == "e2e_ref":
+    if case["kind"] in ("e2e_ref", "e2e_hist"):
         return None
     try:
         if case["kind"] == "event":
@@ -891,6 +921,8 @@ def signature(case, obs, msg):
 def nontrivial(case, obs):
     if case["kind"] == "e2e_ref":
         return True
+    if case["kind"] == "e2e_hist":
+        return "skip" not in obs and any(s["op"] == "ev" for s in case["steps"])
     r = case["ref"] if case["kind"] != "event" else {"d": case["ref"]["args"]}
     s = json.dumps(r)
     structured = any(t in s for t in ('"l"', '"S"', '"d"', '"r"', '"c"'))
@@ -901,6 +933,8 @@ def nontrivial(case, obs):
 
 def tags(case, obs):
     t = ["kind:" + case["kind"]]
+    if case["kind"] == "e2e_hist":
+        return t + hist.tags(case, obs) + (["rec-skipped"] if obs.get("calls_skipped") else [])
     if case["kind"] == "e2e_ref":
         forms = sorted(set("rec:" + (c["stmt"]["form"] if c["fn"] == "gefe" else c["fn"] + "-" + c["ev"]["kind"] + ("/" + c["ref"]["kind"] if c["fn"] == "ms" else "")) for c in obs.get("calls", [])))
         return t + ["ref:" + case["sub"], "ref-hits:%d" % sum(obs.get("hits", []))] + forms + (["rec-skipped"] if obs.get("calls_skipped") else [])
@@ -940,6 +974,9 @@ def _sub(v):
 
 
 def shrink(case):
+    if case["kind"] == "e2e_hist":
+        yield from hist.shrink(case)
+        return
     if case["kind"] == "e2e_ref":
         for i in range(len(case["events"])):
             if len(case["events"]) > 1:
